@@ -78,6 +78,7 @@ type Conn struct {
 	subs       []*Subscription
 	Log        []*Msg // every message handed to the broker, in order
 	seq        int
+	subsEver   int
 	MaxPayload int
 	// OnPublish lets a harness inject a failure.
 	OnPublish func(subj, reply string, data []byte) error
@@ -133,6 +134,7 @@ func (c *Conn) QueueSubscribe(subj, queue string, cb MsgHandler) (*Subscription,
 	s := &Subscription{Subject: subj, Queue: queue, conn: c, cb: cb, obj: vsched.NewObj("natssub")}
 	c.obj.Write()
 	c.subs = append(c.subs, s)
+	c.subsEver++
 	vsched.GoNamed("nats-dispatch:"+subj, false, s.dispatch)
 	return s, nil
 }
@@ -370,4 +372,14 @@ func (c *Conn) Inject(subj, reply string, hdr Header, data []byte) int {
 	m := &Msg{Subject: subj, Reply: reply, Header: hdr, Data: data, Seq: c.seq}
 	c.Log = append(c.Log, m)
 	return c.route(m)
+}
+
+// WaitSubs parks the caller until the connection has at least n live subscriptions.
+func (c *Conn) WaitSubs(n int) {
+	vsched.WaitUntil(c.obj, func() bool { return len(c.subs) >= n })
+}
+
+// WaitSubsEver parks the caller until n subscriptions have been created in total.
+func (c *Conn) WaitSubsEver(n int) {
+	vsched.WaitUntil(c.obj, func() bool { return c.subsEver >= n })
 }
